@@ -96,7 +96,7 @@ structure Runtime where
   recycleCmp : Extracted.Guards.Cmp
   deriving Repr, DecidableEq
 
-/-- the asyncio worker as the code is now (after the `fix:` commits b14e22f, 4c08dc8, 9c9a997, b7ab22b and 1b98b61 (F32):
+/-- the asyncio worker as the code is now (after the `fix:` commits b14e22f, 4c08dc8, 9c9a997, b7ab22b and 5d167c5 (F32):
     the HTTP/2 send task releases every waiting sender when it ends, so a cancelled handler with a stream in progress finishes):
     `lifespan.*.failed` no longer sets the event, `worker_serve` no longer awaits `server.wait_closed()` before the bounded
     wait for the handlers (so CPython's `wait_closed` semantics no longer matter), the `CancelledError` of the cancelled
